@@ -52,6 +52,13 @@ def run_bounded(pid, tier):
     if pid in ("C01", "C10"):
         li = dict(params, list_input=True, alphabet="abx", max_len=min(params["max_len"], 4), layout_len=0)
         items.extend((pid, g, li) for g in corpus.classic() + list(ogs)[::4 if tier == "quick" else 1])
+    # C17 quantifies over lexical_disambiguation on and off (GLR default: off)
+    if pid == "C17":
+        ld = dict(params, lexdis=True, max_len=min(params["max_len"], 4))
+        items.extend((pid, g, ld) for g in corpus.classic() + list(ogs)[::3 if tier == "quick" else 1])
+        # ... and the token list may go through a custom_token_recognition callable
+        cr = dict(params, custom_recognition=True, max_len=min(params["max_len"], 4))
+        items.extend((pid, g, cr) for g in corpus.classic() + list(ogs)[::9 if tier == "quick" else 3])
     results = fw.pmap(glr_grammar_worker, items)
     rule = RULES["C01"].replace("n_p", str(params["n_prods"])).replace("max_len", str(params["max_len"]))
     out = fw.merge_worker_results(results, rule)
